@@ -90,7 +90,7 @@ func (s *faultStore) GetAll(t storage.Table) storage.KVPairReader { return s.inn
 func (s *faultStore) GetLast(t storage.Table) (*storage.KVPair, error) {
 	return s.inner.GetLast(t)
 }
-func (s *faultStore) Close() error                          { return s.inner.Close() }
+func (s *faultStore) Close() error { return s.inner.Close() }
 func (s *faultStore) Backup(m string) error {
 	if s.beforeBackup != nil {
 		s.beforeBackup()
